@@ -65,7 +65,12 @@ func runConc(r *ev.Run, id caseID) {
 				{"getall", "/c/*", ""}, {"getallvalues", "/c/*/*", ""}, {"list", "/c", ""}, {"listdir", "/c", ""},
 				{"getall", "/c/k[0-9]", ""}, {"get", g.pool[(i+3)%len(g.pool)], ""},
 			}
-			for n := 0; !stop.Load() && n < 40000; n++ {
+			for n := 0; !stop.Load(); n++ {
+				// paced by the updater (about 5 lookups per applied entry and reader) so that the
+				// readers are there for the whole run and the number of answers to judge is bounded
+				for int64(n) > 5*(done.Load()+40) && !stop.Load() {
+					runtime.Gosched()
+				}
 				q := qs[n%len(qs)]
 				lo := done.Load()
 				got, err := sm.Lookup(q.req())
@@ -98,13 +103,32 @@ func runConc(r *ev.Run, id caseID) {
 	var verdictSeen *verdict
 	var updErr error
 	idx := uint64(1)
-	batches := r.Pick(1200, 2500)
+	batches := r.Pick(900, 2500)
 	applied := 0
 	var inPlace int
 	hist := map[string][]uint64{}
+	// three windows per run in which one key holds a boundary-sized value (64 KiB +-, 128 KiB,
+	// in the last window of odd seeds 1 MiB): stored by a single-entry batch, snapshot prepared
+	// right away (saved concurrently with later updates), in-place recovery two batches later,
+	// overwritten by a small value after a few batches.
+	type window struct{ size, closeAt int }
+	bigAt := map[int]window{}
+	for wi := 0; wi < 3; wi++ {
+		size := []int{65536 - g.r.Intn(160), boundarySizes[5+g.r.Intn(4)], 128 << 10}[g.r.Intn(3)]
+		length := 6
+		if wi == 2 && id.Seed%2 == 1 {
+			size, length = 1<<20, 3
+		}
+		bigAt[50+wi*(batches/3)] = window{size, 50 + wi*(batches/3) + length}
+	}
+	closeAt, recoverAt := -1, -1
 updater:
 	for b := 0; b < batches; b++ {
 		bs := 1 + g.r.Intn(5)
+		win, opens := bigAt[b]
+		if opens || b == closeAt {
+			bs = 1
+		}
 		ops := make([]opDesc, bs)
 		for j := range ops {
 			idx += 1 + uint64(g.r.Intn(2))
@@ -117,6 +141,15 @@ updater:
 			o.Ver, o.How = g.version(m, o.Key, hist[o.Key], idx)
 			if g.r.Intn(2) == 0 {
 				o.Ver = m.M[o.Key].Ver
+			}
+			if opens || b == closeAt {
+				o.Op, o.Key, o.Ver = kv.UpdateOpSet, g.pool[0], m.M[g.pool[0]].Ver
+				o.Val = fmt.Sprintf("v%d", idx)
+				if opens {
+					o.Val = sizedValue(g.r, win.size, o.Val+"-")
+					closeAt, recoverAt = win.closeAt, b+2
+					r.Count("concurrent_sized_value_windows:"+sizeBucket(win.size), 1)
+				}
 			}
 			ops[j] = o
 		}
@@ -143,7 +176,7 @@ updater:
 		}
 		applied += bs
 		done.Store(int64(applied))
-		if b%9 == 4 {
+		if b%9 == 4 || opens {
 			ctx, err := sm.PrepareSnapshot()
 			if err != nil {
 				updErr = err
@@ -151,7 +184,7 @@ updater:
 			}
 			saveCh <- &savedSnap{at: applied, ctx: ctx}
 		}
-		if b%31 == 7 {
+		if b%31 == 7 || b == recoverAt {
 			// install a snapshot of the current state into the live instance while readers run
 			ctx, err := sm.PrepareSnapshot()
 			if err == nil {
